@@ -4,7 +4,7 @@ import ast
 
 from .. import tables
 from ..pat import find_expr, find_stmt, match_expr, match_stmt
-from ..canon import single_assignments
+from ..canon import canon, single_assignments
 from ..pm import src
 from ..q import FA, call_name, guard_facts, walk_no_nested
 from .C20_reg import _chain_ends_in_raise, compared_literals
@@ -46,7 +46,20 @@ def run(ctx):
         calls = [c for c in walk_no_nested(f.node) if isinstance(c, ast.Call) and call_name(c) == "self.save_results"]
         ok = len(calls) >= 1 and all(any(k.arg == "extension" and src(k.value) == "self.result_extension" for k in c.keywords) for c in calls)
         ctx.ob("R-REG", "C19.1", f, "the run passes the configured result_extension to save_results", ok, f"{[src(c)[:80] for c in calls]}")
-    ctx.floor("C19.1", 5)
+    # ... and when saving was asked for, the file is written on every path: the results in memory (posterior samples are
+    # re-drawn on every run(), a finished run included) are what the file must hold
+    for m in ("run_standard_sampler", "run_importance_nested_sampler"):
+        f = ctx.fn(f"{FS}.{m}")
+        fa_r = FA(f)
+        calls_r = [n_ for n_, c_ in fa_r.find_calls("self.save_results")]
+        ifs_r = [n_ for n_ in fa_r.nodes() if n_.kind == "if" and canon(n_.ast.test) == "save"]
+        ok_r = bool(calls_r) and len(ifs_r) >= 1
+        for n_ in ifs_r:
+            first_ = n_.ast.body[0] if n_.ast.body else None
+            nid_ = fa_r.cfg.id_of(first_) if first_ is not None else None
+            ok_r = ok_r and nid_ is not None and (nid_ in calls_r or fa_r.cfg.every_exit_path_passes(nid_, calls_r))
+        ctx.ob("R-ORDER", "C19.1", f, "when `save` is set the result file is written on every path (never skipped because an older file exists)", ok_r, f"{len(calls_r)} save_results call(s) under {len(ifs_r)} `if save:`")
+    ctx.floor("C19.1", 7)
 
     # ---- C19.2 JSON encoder totality ---------------------------------------------
     enc = ctx.fn(IO + ":NessaiJSONEncoder.default")
